@@ -393,13 +393,36 @@ func famTamper(r *Rand) *seqScenario {
 	keys := []string{"checkpoint", "tile/0/000", "tile/0/001.p/1", "tile/data/000", "tile/data/001.p/1", "tile/names/000",
 		fmt.Sprintf("tile/0/000.p/%d", n%256), fmt.Sprintf("tile/data/000.p/%d", n%256), fmt.Sprintf("tile/0/001.p/%d", n%256),
 		fmt.Sprintf("tile/data/001.p/%d", n%256), "tile/1/000.p/1", "@staging", "@issuer", "@any"}
-	for k := 1 + r.Intn(2); k > 0; k-- {
-		key := keys[r.Intn(len(keys))]
-		mut := []string{"delete", "truncate", "flip", "flip", "copyfrom"}[r.Intn(5)]
-		b.cmd(seqCmd{Op: "tamper", Key: key, Mut: mut, V: int64(r.Intn(1 << 20)), Name: keys[r.Intn(len(keys))]})
+	tamperSome := func() {
+		for k := 1 + r.Intn(2); k > 0; k-- {
+			key := keys[r.Intn(len(keys))]
+			mut := []string{"delete", "truncate", "flip", "flip", "copyfrom", "rollback"}[r.Intn(6)]
+			if mut == "rollback" {
+				// only keys that are ever rewritten or removed have earlier versions
+				key = []string{"checkpoint", "checkpoint", "@staging"}[r.Intn(3)]
+			}
+			b.cmd(seqCmd{Op: "tamper", Key: key, Mut: mut, V: int64(r.Intn(1 << 20)), Name: keys[r.Intn(len(keys))]})
+		}
 	}
-	b.cmd(seqCmd{Op: "clock", V: 5})
-	b.cmd(seqCmd{Op: "start", Inst: 0})
+	switch r.Intn(3) {
+	case 0, 1:
+		// between runs
+		tamperSome()
+		b.cmd(seqCmd{Op: "clock", V: 5})
+		b.cmd(seqCmd{Op: "start", Inst: 0})
+	default:
+		// DURING the restart: the storage changes between two reads of one LoadLog (after any number of its operations)
+		b.cmd(seqCmd{Op: "clock", V: 5})
+		b.cmd(seqCmd{Op: "start", Inst: 0})
+		b.cmd(seqCmd{Op: "run", Inst: 0, Max: 1 + r.Intn(9)})
+		if r.Chance(60) {
+			// the objects a load reads last: the right-edge hash tiles and the right-edge data tile
+			edge := []string{"@hashtile", "@hashtile", "tile/1/000.p/1", "@datatile", "tile/0/000"}
+			b.cmd(seqCmd{Op: "tamper", Key: edge[r.Intn(len(edge))], Mut: []string{"flip", "truncate", "delete", "copyfrom"}[r.Intn(4)], V: int64(r.Intn(1 << 20)), Name: keys[r.Intn(len(keys))]})
+		} else {
+			tamperSome()
+		}
+	}
 	b.cmd(seqCmd{Op: "run", Inst: 0})
 	b.submitN(0, 1+r.Intn(2), true)
 	b.roundOK(0)
@@ -660,7 +683,7 @@ func genScenarios(o *Opts, r *Rand) []*seqScenario {
 		}
 	}
 	if fam("tamper") {
-		for i := 0; i < 60*mul; i++ {
+		for i := 0; i < 100*mul; i++ {
 			add(famTamper(r.Fork()))
 		}
 	}
